@@ -8,10 +8,17 @@ Lemma lnat_eqb_spec a b : lnat_eqb a b = true <-> a = b.
 Proof. apply list_eqb_spec. exact Nat.eqb_eq. Qed.
 Lemma olnat_eqb_spec a b : olnat_eqb a b = true <-> a = b.
 Proof. apply option_eqb_spec. exact lnat_eqb_spec. Qed.
+Lemma tsobj_eqb_spec a b : tsobj_eqb a b = true <-> a = b.
+Proof.
+  destruct a, b; simpl; try (split; discriminate); rewrite ?andb_true_iff, !Nat.eqb_eq.
+  - split; [intros [-> ->]; reflexivity | intro H; injection H; auto].
+  - split; [intros ->; reflexivity | intro H; injection H; auto].
+  - split; [intros ->; reflexivity | intro H; injection H; auto].
+Qed.
 Lemma tsv_eqb_spec a b : tsv_eqb a b = true <-> a = b.
 Proof.
-  destruct a, b; simpl; try (split; [reflexivity|reflexivity]); try (split; discriminate).
-  rewrite Nat.eqb_eq. split; [intros ->; reflexivity | intro H; injection H; auto].
+  destruct a as [|x|], b as [|y|]; simpl; try (split; [reflexivity|reflexivity]); try (split; discriminate).
+  rewrite tsobj_eqb_spec. split; [intros ->; reflexivity | intro H; injection H; auto].
 Qed.
 Lemma store_eqb_spec a b : store_eqb a b = true <-> a = b.
 Proof. apply list_eqb_spec. exact lnat_eqb_spec. Qed.
@@ -420,7 +427,7 @@ Proof.
   - rewrite signal_spec, map_map. apply map_ext. intros [p []]; reflexivity.
   - rewrite signal_spec, map_map. apply map_ext. intros [p []]; reflexivity.
   - destruct (deliver_ok nc now n e st (Orig (v_tags e)) Hnow Hnc) as [ext [E F]].
-    + constructor. exact Hok.
+    + constructor. simpl in Hok. apply andb_true_iff in Hok as [Hok _]. exact Hok.
     + simpl in HE. simpl snd. rewrite E in *. apply Forall2_map_eq. eapply Forall2_impl; [|exact F].
       intros pk out HL. eapply leaf_resolved; [exact HL | exact HE |].
       rewrite firstn_app_le by exact Hnc. exact Hnow.
